@@ -463,9 +463,11 @@ func verifCanary(label string, cond bool) {}
 //@   assigns *cfg, *cfg.dialer, *cfg.dialer.Dialer, *cfg.dialer.ClientACK, *cfg.sechan, *cfg.session, *cfg.session.ClientDescription
 //@   assigns *dyn(cfg.session.UserIdentityToken, *ua.AnonymousIdentityToken), *dyn(cfg.session.UserIdentityToken, *ua.UserNameIdentityToken)
 //@   assigns *dyn(cfg.session.UserIdentityToken, *ua.X509IdentityToken), *dyn(cfg.session.UserIdentityToken, *ua.IssuedIdentityToken)
-//@   ensures [C23:keeps-parts] cfg.sechan == old(cfg.sechan) && cfg.session == old(cfg.session) && cfg.dialer == old(cfg.dialer) &&
-//@           cfg.dialer.Dialer == old(cfg.dialer.Dialer) && cfg.dialer.ClientACK == old(cfg.dialer.ClientACK) &&
-//@           cfg.session.ClientDescription == old(cfg.session.ClientDescription)
+//@   ensures [C23:keeps-parts] (cfg.sechan == old(cfg.sechan) || fresh(cfg.sechan)) && (cfg.session == old(cfg.session) || fresh(cfg.session)) &&
+//@           (cfg.dialer == old(cfg.dialer) || fresh(cfg.dialer)) &&
+//@           (cfg.dialer.Dialer == old(cfg.dialer.Dialer) || fresh(cfg.dialer.Dialer)) &&
+//@           (cfg.dialer.ClientACK == old(cfg.dialer.ClientACK) || fresh(cfg.dialer.ClientACK)) &&
+//@           (cfg.session.ClientDescription == old(cfg.session.ClientDescription) || fresh(cfg.session.ClientDescription))
 //@   ensures [C23:own-token] cfg.session.UserIdentityToken == old(cfg.session.UserIdentityToken) || fresh(cfg.session.UserIdentityToken)
 
 // Dialer(d) installs the caller's dialer (the one option that replaces an owned object by a caller-supplied one)
